@@ -243,9 +243,9 @@ let run (lines : string list) =
            | "filter" -> derived (sl_filter pred_even (get ()) !a) (fun fl ->
                  if iget () = [] then (CC_ERR_OUT_OF_RANGE, []) else if fl then (CC_ERR_ALLOC, []) else (CC_OK, List.filter pred_even (iget ())))
            | "sort" ->
-               let ((s, l'), a') = ok (sl_sort (isort cmp_val) (get ()) !a) in
+               let ((s, l'), a') = ok (sl_sort (isort cmp) (get ()) !a) in
                set l'; a := a';
-               let s2 = if s = CC_ERR_ALLOC then CC_ERR_ALLOC else (iset (isort cmp_val (iget ())); CC_OK) in
+               let s2 = if s = CC_ERR_ALLOC then CC_ERR_ALLOC else (iset (isort cmp (iget ())); CC_OK) in
                Printf.printf "%s %s%s ## %s %s%s\n" op (stat_name s) (obs ()) op (stat_name s2) (iobs ())
            | "iter" ->
                let (out, l', a', fails) = run_iter (get ()) !a args in
